@@ -148,6 +148,7 @@ type FnCtx struct {
 	globals   map[*ssa.Global]*Term
 	stack     []*ssa.Function
 	oldVals   map[ssa.Instruction]Value // recorded Old() operands (pre-state pass)
+	oldBinders map[*ssa.Call]*Term      // bound variables of quantifier call sites, shared by the two passes
 	oldMode   int                       // 1 = recording pass, 2 = replay pass
 	specFuns  map[string]bool
 	curFn     string
